@@ -10,6 +10,7 @@ rows, and arbitrary numbers `ncf`, `nsf` of control / sensitive columns.
 import FairModel.Lemmas.Frame
 import FairModel.Lemmas.FrameSrc
 import FairModel.Lemmas.FrameMulti
+import FairModel.Lemmas.FeatureNames
 
 namespace C01
 open Frame
@@ -489,6 +490,130 @@ theorem multi_crosstalk_witness :
 
 end Multi
 
+/-! ### Feature names (`sensitive_levels` / `control_levels`)
+
+`Model/FeatureNames.lean` models `MetricFrame._process_features`, `GroupFeature.__init__` and the
+duplicate check of `MetricFrame.__init__`; the base names, the default-name format and the order of the
+duplicate check are lifted from the source (`Generated/FeatureNamesSrc.lean`). -/
+
+section Names
+open FeatureNames
+
+/-- whenever construction succeeds, the feature names (sensitive ++ control) are pairwise distinct -/
+theorem names_nodup (sb cb : String) (sf : Container) (cf : Option Container)
+    (s : List String) (c : Option (List String)) (h : featureNames sb cb sf cf = .ok (s, c)) :
+    (s ++ c.getD []).Nodup := by
+  unfold featureNames at h
+  cases hs : processFeatures sb sf with
+  | error e => simp [hs] at h
+  | ok s' =>
+    simp only [hs] at h
+    cases cf with
+    | none =>
+      simp only at h
+      split at h
+      · cases h
+      · next hd =>
+        injection h with h; injection h with h1 h2; subst h1; subst h2
+        simp only [Option.getD_none, List.append_nil]
+        exact (firstDuplicate_nil_none_iff _).mp (by simpa using hd)
+    | some cc =>
+      simp only at h
+      cases hc : processFeatures cb cc with
+      | error e => simp [hc] at h
+      | ok cn =>
+        simp only [hc, FeatureNamesSrc.sensitiveNamesFirst, if_true] at h
+        split at h
+        · cases h
+        · next hd =>
+          injection h with h; injection h with h1 h2; subst h1; subst h2
+          exact (firstDuplicate_nil_none_iff _).mp (by simpa using hd)
+
+/-- construction succeeds exactly when both containers yield names and all names are distinct -/
+theorem names_accepts_iff (sb cb : String) (sf : Container) (cc : Container)
+    (s cn : List String) (hs : processFeatures sb sf = .ok s) (hc : processFeatures cb cc = .ok cn) :
+    featureNames sb cb sf (some cc) = (if (s ++ cn).Nodup then .ok (s, some cn) else .error .duplicateName) := by
+  unfold featureNames
+  simp only [hs, hc, FeatureNamesSrc.sensitiveNamesFirst, if_true]
+  by_cases hn : (s ++ cn).Nodup
+  · have := (firstDuplicate_nil_none_iff _).mpr hn
+    simp [this, hn]
+  · have : firstDuplicate [] (s ++ cn) ≠ none := fun h => hn ((firstDuplicate_nil_none_iff _).mp h)
+    cases hf : firstDuplicate [] (s ++ cn) with
+    | none => exact absurd hf this
+    | some x => simp [hn]
+
+/-- an error of either container is the error of the constructor (sensitive features first) -/
+theorem names_error_propagates (sb cb : String) (sf : Container) (cf : Option Container) (e : FErr)
+    (h : processFeatures sb sf = .error e) : featureNames sb cb sf cf = .error e := by
+  unfold featureNames; simp [h]
+
+/-- which containers are rejected, and with which error -/
+theorem names_rejected :
+    (∀ b, processFeatures b (.series (some .other)) = .error .seriesNameNotString) ∧
+    (∀ b cols, NameVal.other ∈ cols → processFeatures b (.dataframe cols) = .error .columnNameNotString) ∧
+    (∀ b keys, NameVal.other ∈ keys → processFeatures b (.dict keys true) = .error .columnNameNotString) ∧
+    (∀ b keys, processFeatures b (.dict keys false) = .error .dictConversion) ∧
+    (∀ b, processFeatures b (.list false) = .error .listNonScalar) ∧
+    (∀ b d k, d ≠ 1 → d ≠ 2 → processFeatures b (.array d k) = .error .tooManyDims) := by
+  refine ⟨fun _ => rfl, fun b cols h => columnsNames_other b 0 cols h,
+    fun b keys h => columnsNames_other b 0 keys h, fun _ _ => rfl, fun _ => rfl, ?_⟩
+  intro b d k h1 h2
+  match d, h1, h2 with
+  | 0, _, _ => rfl
+  | 1, h1, _ => exact absurd rfl h1
+  | 2, _, h2 => exact absurd rfl h2
+  | n + 3, _, _ => rfl
+
+/-- which names an accepted container gets: the names it carries, else the defaults `base<i>` -/
+theorem names_accepted (b : String) :
+    processFeatures b (.series none) = .ok [defaultName b 0] ∧
+    (∀ s, processFeatures b (.series (some (.str s))) = .ok [s]) ∧
+    (∀ ss : List String, processFeatures b (.dataframe (ss.map .str)) = .ok ss) ∧
+    (∀ ss : List String, processFeatures b (.dict (ss.map .str) true) = .ok ss) ∧
+    processFeatures b (.list true) = .ok [defaultName b 0] ∧
+    (∀ k, processFeatures b (.array 1 k) = .ok [defaultName b 0]) ∧
+    (∀ k, processFeatures b (.array 2 k) = .ok ((List.range k).map (defaultName b))) :=
+  ⟨rfl, fun _ => rfl, fun ss => columnsNames_str b 0 ss, fun ss => columnsNames_str b 0 ss, rfl,
+    fun _ => rfl, fun _ => rfl⟩
+
+/-- every container is either accepted or rejected with one of the listed errors: no other outcome -/
+theorem names_total (b : String) (c : Container) :
+    (∃ ns, processFeatures b c = .ok ns) ∨ (∃ e, processFeatures b c = .error e) := by
+  cases h : processFeatures b c with
+  | ok ns => exact .inl ⟨ns, rfl⟩
+  | error e => exact .inr ⟨e, rfl⟩
+
+/-- default names never collide with each other … -/
+theorem names_default_distinct (b : String) (k : Nat) : ((List.range k).map (defaultName b)).Nodup :=
+  default_names_nodup b k
+
+/-- … nor across the two kinds of features, for the base names lifted from `__init__` -/
+theorem names_default_disjoint (i j : Nat) :
+    defaultName FeatureNamesSrc.sensitiveBase i ≠ defaultName FeatureNamesSrc.controlBase j := by
+  intro h
+  have h2 := congrArg String.toList h
+  simp [defaultName, FeatureNamesSrc.defaultName, FeatureNamesSrc.sensitiveBase, FeatureNamesSrc.controlBase,
+    String.toList_append] at h2
+
+/-- hence array / list inputs (which carry no names) are always accepted: any number of sensitive
+    columns together with any number of control columns -/
+theorem names_arrays_accepted (k l : Nat) :
+    metricFrameNames (.array 2 k) (some (.array 2 l)) =
+      .ok ((List.range k).map (defaultName FeatureNamesSrc.sensitiveBase),
+           some ((List.range l).map (defaultName FeatureNamesSrc.controlBase))) := by
+  unfold metricFrameNames
+  rw [names_accepts_iff _ _ _ _ _ _ rfl rfl, if_pos]
+  rw [List.nodup_append]
+  refine ⟨default_names_nodup _ k, default_names_nodup _ l, ?_⟩
+  intro a ha b hb
+  simp only [List.mem_map, List.mem_range] at ha hb
+  obtain ⟨i, _, rfl⟩ := ha
+  obtain ⟨j, _, rfl⟩ := hb
+  exact names_default_disjoint i j
+
+end Names
+
 /-! ### Non-vacuity: a 6-row frame with 2 x 2 sensitive levels and one empty intersection -/
 
 def exRows : List (Row Nat) :=
@@ -509,5 +634,11 @@ example : byGroup 0 1 1 List.sum exRowsC =
 example : overall 0 1 List.sum exRowsC = [(["k"], 14), (["m"], 1)] := by decide +kernel
 example : byGroup 0 0 1 List.length [(⟨(), [], ["z"]⟩ : Row Unit), ⟨(), [], ["b"]⟩, ⟨(), [], ["z"]⟩] =
     [(["b"], 1), (["z"], 2)] := by decide +kernel
+
+example : FeatureNames.metricFrameNames (.series (some (.str "grp"))) (some (.dataframe [.str "a", .str "grp"])) =
+    .error .duplicateName := by decide +kernel
+example : FeatureNames.metricFrameNames (.dict [.str "s", .other] true) none = .error .columnNameNotString := by decide +kernel
+example : FeatureNames.metricFrameNames (.list true) (some (.series none)) =
+    .ok (["sensitive_feature_0"], some ["control_feature_0"]) := by decide +kernel
 
 end C01
